@@ -490,6 +490,23 @@ func runC11(w *World, r *Report) {
 
 	shareRule(w, r, "C11.interrupt-keeps-sibling-updates", "an interrupt in an eager run waits for the running siblings before the state is saved: their ProcessState updates and post-handlers are in the checkpoint", 3, "C05", "C05.wait-all-before-save")
 
+	r.Rule("C11.modifier-handed-down", "on a resume from the store the caller's state modifier is put into the context on every path to the restored tasks, whether or not this level has state of its own: a stateful nested graph below a stateful top-level graph gets its turn at the modifier too", 1)
+	{
+		run := w.Fn("compose", "runner.run")
+		gcs := w.Fn("compose", "getCheckPointFromStore")
+		rst := w.Fn("compose", "runner.restoreTasks")
+		ssm := w.Fn("compose", "setStateModifier")
+		n := 0
+		for _, c := range callsTo(run, gcs) {
+			n++
+			skip, wit := pathQuery{fn: run, from: c, goal: func(in ssa.Instruction) bool { return isCallTo(in, rst) }, avoid: func(in ssa.Instruction) bool { return isCallTo(in, ssm) }}.exists()
+			r.Check(!skip, "C11.modifier-handed-down", "runner.run: the store-resume arm always puts the state modifier into the context", c.Pos(), "setStateModifier lies on every path from the loaded checkpoint to restoreTasks", "the modifier is handed down only on some paths (e.g. only when this level has no state): a stateful nested graph below a stateful top-level graph resumes with its state unmodified although the caller passed WithStateModifier — no error, the modifier is simply never offered the nested path: "+wit)
+		}
+		if n == 0 {
+			undecidedf("C11.modifier-handed-down: run does not call getCheckPointFromStore")
+		}
+	}
+
 	r.Rule("C11.state-required", "addNode rejects nodes needing state when the graph has no state generator", 1)
 	addNode := w.Fn("compose", "graph.addNode")
 	fSG := w.Field("compose", "graph", "stateGenerator")
